@@ -215,6 +215,17 @@ def _r3(ctx, fl, pfn, pname):
                 digit_guards.append((f, g, pol))
     key = f"{pname}:text that is not a count is rejected"
     if not digit_guards:
+        # the other common spelling: int(text) inside try / except ValueError -> raise.  int() is MORE permissive than isdigit():
+        # it accepts a sign, surrounding blanks and `_` separators, so "C+2", "H 2", "C1_0" are read instead of rejected
+        for t in ast.walk(pfn):
+            if isinstance(t, ast.Try) and any(h.type is None or "ValueError" in ast.unparse(h.type) or "Exception" in ast.unparse(h.type) for h in t.handlers):
+                ints = [c for b in t.body for c in ast.walk(b) if isinstance(c, ast.Call) and isinstance(c.func, ast.Name) and c.func.id == "int" and len(c.args) == 1]
+                if ints:
+                    ctx.bad("R3", key, (SP, ints[0].lineno),
+                            "the text between two symbols is validated by `int(text)` failing, not by isdigit(): int() also accepts a sign, surrounding whitespace and `_` digit "
+                            "separators, so malformed names (`C+2`, `H 2`, `CO2\\n`, `C1_0`) are silently read as counts instead of being rejected",
+                            expected="if text.isdigit(): count = int(text) else: raise", found=ast.unparse(ints[0])[:60] + " inside try/except")
+                    return
         ctx.unrec("R3", key, W, "no isdigit() test on the text between two symbols: rejection of unrecognised characters not decidable")
         return
     neg = [f for f, g, pol in digit_guards if pol is False]
